@@ -295,6 +295,11 @@ def run(tier):
                     names += [n for n in special if n not in names]
                     if tier != "quick":
                         names += [n for n in COMMON + BRANCHY if n not in names]
+                        # ... and every other errno number the kernel defines (an errno-specific arm need
+                        # not be spelled Errno::E..)
+                        import errno as pyerrno
+                        have = {errno_nr(n) for n in names}
+                        names += [pyerrno.errorcode[e] for e in range(1, 134) if e in pyerrno.errorcode and e not in have]
                 else:
                     # while the caller drops the result: close failing must not close twice, an unmap
                     # failing must not skip the close
@@ -414,7 +419,7 @@ def run(tier):
                 "io_uring set-up, incl. invalid arguments) x every system call k the operation issues before it returns x %s; one traced "
                 "process per (scenario, k, errno); every window is replayed by TLC through FdTable.tla (FdTableTrace) and, independently, "
                 "judged on the /proc/<pid>/fd snapshots. non-trivial = distinct (scenario, k, errno) whose fault was actually delivered"
-                % (len(scens), "the call's typical errno and every errno the operation's source special-cases (Errno::E.. in its files), also for the calls issued while the caller drops the result" if tier == "quick" else "typical + special-cased errnos + EMFILE, ENOMEM, EINTR, EACCES, EAGAIN, EINPROGRESS, also in the drop phase"))
+                % (len(scens), "the call's typical errno and every errno the operation's source special-cases (Errno::E.. in its files), also for the calls issued while the caller drops the result" if tier == "quick" else "every errno 1..133 for the calls of the operation; typical + EMFILE, ENOMEM, EINTR, EACCES for the calls of the drop phase"))
     chk.assumptions = [
         "faults are injected at the system-call boundary of the main task only (parent side; the forked child of spawn belongs to C13)",
         "a failing close still releases the descriptor (Linux semantics): close is executed and only its result is overwritten",
